@@ -239,6 +239,9 @@ class API:
                             raise ConfigurationException(f"Unknown configuration file extension: '{path.suffix}'")
             else:
                 config_dict = dict()
+            if not isinstance(config_dict, dict):
+                raise ConfigurationException("The configuration file must contain a mapping of configuration keys",
+                                             position=Position(file=path))
             combine_into(options, config_dict)
             config = self._configuration_model.model_validate(config_dict)
             return API.ConfiguredContext(
